@@ -764,8 +764,9 @@ func subjectsFor(root ast.Node, f bitfield.BitField8, seed uint64, given []strin
 // flag group `(?..x..)` / `(?..-..x..)` switches it for the rest of the enclosing group, a group
 // with content restores the state it was opened under when it closes (`|` does not touch it).
 // Where x is on, comments and unescaped whitespace are removed; where x is off, `#` and
-// whitespace are ordinary characters and stay.  Flag groups are kept as they are (x is invisible
-// in the emitted text), so Transpile(xStrip(src, x0), f - x) is what Transpile(src, f) must emit.
+// whitespace are ordinary characters and stay.  When stripping, x is erased from the flag groups
+// (it is invisible in the emitted text), so the stripped source never enters extended mode and
+// Transpile(xStrip(src, x0), f - x) is what Transpile(src, f) must emit.
 // It does not use the regex lexer / parser / transpiler.  ok=false: the text has a `(?` head
 // this scanner does not read (the oracle is then not applied).
 //
@@ -862,13 +863,46 @@ func xScan(src string, x0 bool, strip bool, edit func(c rune, x bool) rune, live
 				j++
 			}
 			nx := (x || set) && !unset
+			// when stripping, x is erased from the head (`(?x)` -> `(?)`, `(?i-x:` -> `(?i:`, `(?-x:` -> `(?:`): the emitted text
+			// is the same (x is invisible to Go, a flag group with content and no visible flag is written `(?:`), and the
+			// stripped source then never enters extended mode at all
+			erased := func(end int, close rune) []rune {
+				var st, un []rune
+				d := false
+				for _, c := range rs[i+2 : end] {
+					switch {
+					case c == '-':
+						d = true
+					case c == 'x':
+					case d:
+						un = append(un, c)
+					default:
+						st = append(st, c)
+					}
+				}
+				h := append([]rune("(?"), st...)
+				if len(un) > 0 {
+					h = append(append(h, '-'), un...)
+				}
+				return append(h, close)
+			}
 			switch {
 			case j < n && rs[j] == ')': // bare flag group: the rest of the enclosing group
 				x = nx
+				if strip && (set || unset) {
+					out = append(out, erased(j, ')')...)
+					i = j + 1
+					continue
+				}
 				j++
 			case j < n && rs[j] == ':': // scoped
 				stack = append(stack, x)
 				x = nx
+				if strip && (set || unset) {
+					out = append(out, erased(j, ':')...)
+					i = j + 1
+					continue
+				}
 				j++
 			case j == i+2 && j < n && (rs[j] == '<' || rs[j] == '\'' || (rs[j] == 'P' && j+1 < n && rs[j+1] == '<')):
 				// named group: the head up to the closing > or ' is copied
